@@ -350,14 +350,14 @@ Proof. destruct ctx as [[e h]|]; repeat constructor. Qed.
 Lemma qinv_step : forall s s', qinv s -> step s = Some s' -> qinv s'.
 Proof.
   intros s s' I H. unfold DispatchOrder.step in H.
-  destruct (stack s) as [|[ctx [|[n p| | |] acts]| |x rem chk] k] eqn:Hstk; try discriminate.
+  destruct (stack s) as [|[ctx [|[n p md| | | |fs] acts]| |x rem chk] k] eqn:Hstk; try discriminate.
   - (* body returns *)
     inversion H; subst; clear H.
     eapply qinv_quiet with (t := match ctx with Some (e, h) => [TRet e h] | None => [] end);
       eauto; try reflexivity. apply quiet_ret.
   - (* fire *)
     inversion H; subst; clear H. destruct I as [B R N L C].
-    set (x := {| ikey := p; ictr := counter s; iname := n |}) in *.
+    set (x := {| ikey := p; ictr := counter s; iname := n; imode := md |}) in *.
     assert (P : Permutation ((fifo s ++ [x]) ++ heap s ++ disps (trace s))
                             ((fifo s ++ heap s ++ disps (trace s)) ++ [x])).
     { rewrite <- !app_assoc. apply Permutation_app_head. rewrite (app_assoc (heap s)).
@@ -396,6 +396,10 @@ Proof.
     destruct ctx as [[e h]|]; simpl in H; inversion H; subst; clear H.
     + eapply qinv_quiet with (t := [TGen e h]); eauto; try reflexivity. repeat constructor.
     + eapply qinv_quiet with (t := []); eauto; try reflexivity.
+  - (* raise *)
+    destruct ctx as [[e h]|]; simpl in H; inversion H; subst; clear H.
+    + eapply qinv_quiet with (t := [TRaise e h]); eauto; try reflexivity. repeat constructor.
+    + eapply qinv_quiet with (t := []); eauto; try reflexivity.
   - (* loop head *)
     destruct (batch s =? 0) eqn:Bz.
     + inversion H; subst; clear H.
@@ -416,7 +420,7 @@ Proof.
         -- rewrite disps_app. simpl. eapply Permutation_Forall; [symmetry; apply ids_perm; exact P|auto].
       * apply pop_min_none in Pm. rewrite Pm in B. simpl in B. lia.
   - (* dispatcher loop *)
-    destruct (chk && is_stopped (ictr x) (stopped s)); [|destruct rem as [|h rem']]; inversion H; subst; clear H.
+    destruct (chk && (is_stopped (ictr x) (stopped s) || is_pre (imode x))); [|destruct rem as [|h rem']]; inversion H; subst; clear H.
     + eapply qinv_quiet with (t := [TDone (ictr x)]); eauto; try reflexivity. repeat constructor.
     + eapply qinv_quiet with (t := [TDone (ictr x)]); eauto; try reflexivity. repeat constructor.
     + eapply qinv_quiet with (t := [TInv (ictr x) (hid h) (S (depth k))]); eauto; try reflexivity. repeat constructor.
@@ -527,7 +531,7 @@ Qed.
 Lemma wf_step : forall s s', wfstack (stack s) -> step s = Some s' -> wfstack (stack s').
 Proof.
   intros s s' W H. unfold DispatchOrder.step in H.
-  destruct (stack s) as [|[ctx [|[n p| | |] acts]| |x rem chk] k] eqn:Hstk; try discriminate.
+  destruct (stack s) as [|[ctx [|[n p md| | | |fs] acts]| |x rem chk] k] eqn:Hstk; try discriminate.
   - inversion H; subst; clear H. simpl. apply wfstack_body in W. inversion W; subst.
     + left; auto.
     + right; right; right. eauto 8.
@@ -535,6 +539,9 @@ Proof.
   - apply wfstack_body in W.
     destruct (batch s =? 0); inversion H; subst; clear H; simpl;
       right; right; left; eexists; split; eauto; eapply wfB_acts; eauto.
+  - apply wfstack_body in W.
+    destruct ctx as [[e h]|]; simpl in H; inversion H; subst; clear H; simpl;
+      right; left; eapply wfB_acts; eauto.
   - apply wfstack_body in W.
     destruct ctx as [[e h]|]; simpl in H; inversion H; subst; clear H; simpl;
       right; left; eapply wfB_acts; eauto.
@@ -554,7 +561,7 @@ Proof.
       - inversion W.
       - inversion W; subst; eauto. }
     destruct Wk as (k'&->&Wk).
-    destruct (chk && is_stopped (ictr x) (stopped s)); [|destruct rem as [|h rem']];
+    destruct (chk && (is_stopped (ictr x) (stopped s) || is_pre (imode x))); [|destruct rem as [|h rem']];
       inversion H; subst; clear H; simpl.
     + right; right; left. eauto.
     + right; right; left. eauto.
@@ -588,7 +595,7 @@ Qed.
 Definition frame_ids (k : list frame) : list nat :=
   flat_map (fun f => match f with FDisp x _ _ => [ictr x] | _ => [] end) k.
 (* the handler ids of an event in the order sorted(..., reverse=True) gives them *)
-Definition full (x : item) : list nat := map hid (sort_desc K leb (hs_of (iname x))).
+Definition full (x : item) : list nat := map hid (handlers_for K leb hs_of x).
 
 (* after a stop() of event e no handler is invoked for e *)
 Definition ok_stop (t : list tr) : Prop :=
@@ -635,7 +642,8 @@ Record hinv (s : state) : Prop := {
       (chk = false -> ~ In (ictr x) (stopped s));
   h_done : forall x, In x (disps (trace s)) -> ~ In (ictr x) (frame_ids (stack s)) ->
       In (TDone (ictr x)) (trace s) /\
-      exists rem, invs (ictr x) (trace s) ++ rem = full x /\ (rem = [] \/ In (ictr x) (stopped s));
+      exists rem, invs (ictr x) (trace s) ++ rem = full x /\
+        (rem = [] \/ In (ictr x) (stopped s) \/ imode x = MPreStop);
   h_fresh : forall e, ~ In e (ids (disps (trace s))) ->
       invs e (trace s) = [] /\ ~ In (TDone e) (trace s) /\ ~ In e (stopped s);
   h_stop : forall e, In e (stopped s) <-> exists h, In (TStop e h) (trace s);
@@ -707,14 +715,14 @@ Qed.
 Lemma hinv_step : forall s s', qinv s -> wfstack (stack s) -> hinv s -> step s = Some s' -> hinv s'.
 Proof.
   intros s s' Q W I H. unfold DispatchOrder.step in H.
-  destruct (stack s) as [|[ctx [|[n p| | |] acts]| |x rem chk] k] eqn:Hstk; try discriminate.
+  destruct (stack s) as [|[ctx [|[n p md| | | |fs] acts]| |x rem chk] k] eqn:Hstk; try discriminate.
   - (* body returns *)
     inversion H; subst; clear H.
     eapply hinv_plain with (t := match ctx with Some (e, h) => [TRet e h] | None => [] end);
       eauto; try reflexivity; try apply plain_ret; rewrite Hstk; simpl; auto.
   - (* fire *)
     inversion H; subst; clear H.
-    eapply hinv_plain with (t := [TFire {| ikey := p; ictr := counter s; iname := n |}]);
+    eapply hinv_plain with (t := [TFire {| ikey := p; ictr := counter s; iname := n; imode := md |}]);
       eauto; try reflexivity; try (repeat constructor); rewrite Hstk; simpl; auto.
     intros x rem chk [E|E]; [discriminate|auto].
   - (* flush *)
@@ -742,7 +750,8 @@ Proof.
            apply in_frame_ids in I0. inversion Hf; subst. rewrite <- E in I0. auto.
       * intros x0 I0 N0. destruct (Hn x0 I0 N0) as (A&rem0&B&C). split.
         -- apply in_app_iff; auto.
-        -- exists rem0. rewrite invs_snoc_other; [|discriminate]. split; auto. destruct C; auto.
+        -- exists rem0. rewrite invs_snoc_other; [|discriminate]. split; auto.
+           destruct C as [C|[C|C]]; auto.
       * intros e0 N0. destruct (Hr e0 N0) as (A&B&C). repeat split.
         -- rewrite invs_snoc_other; [auto|discriminate].
         -- rewrite in_snoc_other; [auto|discriminate].
@@ -759,6 +768,13 @@ Proof.
   - (* return of a generator *)
     destruct ctx as [[e h]|]; simpl in H; inversion H; subst; clear H.
     + eapply hinv_plain with (t := [TGen e h]); eauto; try reflexivity; try (repeat constructor);
+        rewrite Hstk; simpl; auto.
+      intros x rem chk [E|E]; [discriminate|auto].
+    + eapply hinv_plain with (t := []); eauto; try reflexivity; try constructor; rewrite Hstk; simpl; auto.
+      intros x rem chk [E|E]; [discriminate|auto].
+  - (* raise *)
+    destruct ctx as [[e h]|]; simpl in H; inversion H; subst; clear H.
+    + eapply hinv_plain with (t := [TRaise e h]); eauto; try reflexivity; try (repeat constructor);
         rewrite Hstk; simpl; auto.
       intros x rem chk [E|E]; [discriminate|auto].
     + eapply hinv_plain with (t := []); eauto; try reflexivity; try constructor; rewrite Hstk; simpl; auto.
@@ -810,7 +826,7 @@ Proof.
     destruct (Hd x rem chk) as (Dx&Tx&Ix&Cx); [left; auto|].
     assert (Done : forall s1, stopped s1 = stopped s -> stack s1 = k ->
               trace s1 = trace s ++ [TDone (ictr x)] ->
-              (map hid rem = [] \/ In (ictr x) (stopped s)) -> hinv s1).
+              (map hid rem = [] \/ In (ictr x) (stopped s) \/ imode x = MPreStop) -> hinv s1).
     { intros s1 E1 E2 E3 Why. constructor; rewrite ?E1, ?E2, ?E3, ?disps_app; simpl; rewrite ?app_nil_r; auto.
       - intros x0 rem0 chk0 I0. destruct (Hd x0 rem0 chk0) as (A&B&C&D); [right; auto|].
         repeat split; auto.
@@ -832,13 +848,16 @@ Proof.
         + apply in_app_iff; auto.
         + apply in_snoc_other in E; [auto|discriminate].
       - apply ok_stop_snoc; auto. intros; discriminate. }
-    destruct (chk && is_stopped (ictr x) (stopped s)) eqn:Cs; [|destruct rem as [|h rem']];
+    destruct (chk && (is_stopped (ictr x) (stopped s) || is_pre (imode x))) eqn:Cs; [|destruct rem as [|h rem']];
       inversion H; subst; clear H.
-    + apply Done; auto. right. apply andb_true_iff in Cs. apply is_stopped_in. tauto.
+    + apply Done; auto. right. apply andb_true_iff in Cs. destruct Cs as [_ Cs].
+      apply orb_true_iff in Cs. destruct Cs as [Cs|Cs]; [left; apply is_stopped_in; auto|right].
+      destruct (imode x); simpl in Cs; congruence.
     + apply Done; auto.
     + (* invoke h *)
       assert (Ns : ~ In (ictr x) (stopped s)).
-      { destruct chk; simpl in Cs; auto. intro F. apply is_stopped_in in F. congruence. }
+      { destruct chk; simpl in Cs; auto. apply orb_false_iff in Cs. destruct Cs as [Cs _].
+        intro F. apply is_stopped_in in F. congruence. }
       constructor; simpl; rewrite ?disps_app; simpl; rewrite ?app_nil_r; auto.
       * intros x0 rem0 chk0 [E|[E|I0]]; [discriminate|inversion E; subst; clear E|].
         -- repeat split; auto.
@@ -897,17 +916,27 @@ Proof.
   - destruct (Hn _ D F) as (_&rem&B&_). eauto.
 Qed.
 
-(* when the dispatcher is done with an event that nobody stopped, all its handlers ran *)
+(* when the dispatcher is done with an event that nobody stopped (neither a handler nor, before the
+   dispatch, the outside), all its handlers ran *)
 Theorem handlers_complete : forall prog s x, reach prog s -> In x (disps (trace s)) ->
-  In (TDone (ictr x)) (trace s) -> (forall h, ~ In (TStop (ictr x) h) (trace s)) ->
+  In (TDone (ictr x)) (trace s) -> (forall h, ~ In (TStop (ictr x) h) (trace s)) -> imode x <> MPreStop ->
   invs (ictr x) (trace s) = full x.
 Proof.
-  intros prog s x R D Dn Ns. destruct (hinv_reach _ _ R) as [_ Hd Hn _ Hs _].
+  intros prog s x R D Dn Ns Np. destruct (hinv_reach _ _ R) as [_ Hd Hn _ Hs _].
   destruct (in_dec Nat.eq_dec (ictr x) (frame_ids (stack s))) as [F|F].
   - destruct (frame_of _ _ _ R D F) as (rem&chk&I). destruct (Hd _ _ _ I) as (_&B&_). contradiction.
-  - destruct (Hn _ D F) as (_&rem&B&[->|C]).
+  - destruct (Hn _ D F) as (_&rem&B&[->|[C|C]]).
     + rewrite app_nil_r in B. auto.
     + apply Hs in C. destruct C as (h&C). exfalso. eapply Ns; eauto.
+    + contradiction.
+Qed.
+
+(* a cancelled event takes its slot in the pass (it is in disps) but no handler ever runs for it *)
+Theorem cancelled_no_handlers : forall prog s x, reach prog s -> In x (disps (trace s)) ->
+  imode x = MCancel -> invs (ictr x) (trace s) = [].
+Proof.
+  intros prog s x R D C. destruct (handlers_prefix _ _ _ R D) as (rem&E).
+  unfold full, handlers_for in E. rewrite C in E. simpl in E. apply app_eq_nil in E. tauto.
 Qed.
 
 (* once stop() was called on an event, no further handler is invoked for it *)
@@ -948,12 +977,12 @@ Proof.
     - intros e h I. rewrite Et in *. apply in_app_iff in I. destruct I as [I|I].
       + apply invs_mono. auto.
       + exfalso. eapply Nt; eauto. }
-  destruct (stack s) as [|[ctx [|[n p| | |] acts]| |x rem chk] k] eqn:Hstk; try discriminate.
+  destruct (stack s) as [|[ctx [|[n p md| | | |fs] acts]| |x rem chk] k] eqn:Hstk; try discriminate.
   - inversion H; subst; clear H.
     apply Keep with (t := match ctx with Some (e, h) => [TRet e h] | None => [] end);
       [reflexivity|destruct ctx as [[e h]|]; nostop_tac|frames_tac].
   - inversion H; subst; clear H.
-    apply Keep with (t := [TFire {| ikey := p; ictr := counter s; iname := n |}]);
+    apply Keep with (t := [TFire {| ikey := p; ictr := counter s; iname := n; imode := md |}]);
       [reflexivity|nostop_tac|frames_tac].
   - destruct (batch s =? 0); inversion H; subst; clear H.
     + apply Keep with (t := [TFlushB; TSnap]); [reflexivity|nostop_tac|frames_tac].
@@ -969,11 +998,14 @@ Proof.
   - destruct ctx as [[e h]|]; simpl in H; inversion H; subst; clear H.
     + apply Keep with (t := [TGen e h]); [reflexivity|nostop_tac|frames_tac].
     + apply Keep with (t := []); [reflexivity|nostop_tac|frames_tac].
+  - destruct ctx as [[e h]|]; simpl in H; inversion H; subst; clear H.
+    + apply Keep with (t := [TRaise e h]); [reflexivity|nostop_tac|frames_tac].
+    + apply Keep with (t := []); [reflexivity|nostop_tac|frames_tac].
   - destruct (batch s =? 0); [|destruct (pop_min (heap s)) as [[m h']|]]; inversion H; subst; clear H.
     + apply Keep with (t := [TFlushE]); [reflexivity|nostop_tac|frames_tac].
     + apply Keep with (t := [TDisp m]); [reflexivity|nostop_tac|frames_tac].
     + split; simpl; [intros e h a []|auto].
-  - destruct (chk && is_stopped (ictr x) (stopped s)); [|destruct rem as [|h rem']];
+  - destruct (chk && (is_stopped (ictr x) (stopped s) || is_pre (imode x))); [|destruct rem as [|h rem']];
       inversion H; subst; clear H.
     + apply Keep with (t := [TDone (ictr x)]); [reflexivity|nostop_tac|frames_tac].
     + apply Keep with (t := [TDone (ictr x)]); [reflexivity|nostop_tac|frames_tac].
@@ -1030,11 +1062,13 @@ Lemma flush_count_step : forall s s', qinv s -> step s = Some s' ->
   loops (stack s) + nE (trace s) = nB (trace s) -> loops (stack s') + nE (trace s') = nB (trace s').
 Proof.
   intros s s' Q H. unfold DispatchOrder.step in H.
-  destruct (stack s) as [|[ctx [|[n p| | |] acts]| |x rem chk] k] eqn:Hstk; try discriminate.
+  destruct (stack s) as [|[ctx [|[n p md| | | |fs] acts]| |x rem chk] k] eqn:Hstk; try discriminate.
   - inversion H; subst; clear H. destruct ctx as [[e h]|]; unfold loops, nB, nE; simpl;
       rewrite ?filter_app, ?app_length; simpl; lia.
   - inversion H; subst; clear H. unfold loops, nB, nE; simpl; rewrite ?filter_app, ?app_length; simpl; lia.
   - destruct (batch s =? 0); inversion H; subst; clear H; unfold loops, nB, nE; simpl;
+      rewrite ?filter_app, ?app_length; simpl; lia.
+  - destruct ctx as [[e h]|]; simpl in H; inversion H; subst; clear H; unfold loops, nB, nE; simpl;
       rewrite ?filter_app, ?app_length; simpl; lia.
   - destruct ctx as [[e h]|]; simpl in H; inversion H; subst; clear H; unfold loops, nB, nE; simpl;
       rewrite ?filter_app, ?app_length; simpl; lia.
@@ -1046,7 +1080,7 @@ Proof.
       * unfold loops, nB, nE; simpl; rewrite ?filter_app, ?app_length; simpl; lia.
       * exfalso. destruct Q as [B _ _ _ _]. apply pop_min_none in Pm. rewrite Pm in B. simpl in B.
         apply Nat.eqb_neq in Bz. lia.
-  - destruct (chk && is_stopped (ictr x) (stopped s)); [|destruct rem as [|h rem']];
+  - destruct (chk && (is_stopped (ictr x) (stopped s) || is_pre (imode x))); [|destruct rem as [|h rem']];
       inversion H; subst; clear H; unfold loops, nB, nE; simpl; rewrite ?filter_app, ?app_length; simpl; lia.
 Qed.
 
@@ -1059,15 +1093,107 @@ Proof.
   pose proof (depth_le_loops _ _ R). lia.
 Qed.
 
+(* ---------------------------------------------------------------- events stopped before their dispatch
+   `if event.stopped: break` is only looked at after a handler returned, so an event on which stop() was called
+   from outside before it was dispatched still gets its first (highest-priority) handler, and only that one *)
+Definition pinv (s : state) : Prop :=
+  (forall x rem, In (FDisp x rem false) (stack s) -> invs (ictr x) (trace s) = []) /\
+  (forall x, In x (disps (trace s)) -> imode x = MPreStop -> length (invs (ictr x) (trace s)) <= 1).
+
+Lemma noinv_invs : forall e (t : list tr), (forall e' h d, ~ In (TInv e' h d) t) -> invs e t = [].
+Proof.
+  induction t as [|a t IH]; intro N; auto. simpl.
+  rewrite IH by (intros e' h d F; eapply N; right; eauto).
+  destruct a; auto. exfalso. eapply N. left. reflexivity.
+Qed.
+
+Ltac noinv_tac := let F := fresh "F" in intros ? ? ? F; simpl in F; intuition discriminate.
+Ltac sub_tac := let I0 := fresh "I" in intros ? ? I0; simpl in I0 |- *; intuition discriminate.
+
+Lemma pinv_step : forall s s', qinv s -> hinv s -> pinv s -> step s = Some s' -> pinv s'.
+Proof.
+  intros s s' Q Hi [Pf Pl] H. unfold DispatchOrder.step in H.
+  assert (Keep : forall t, trace s' = trace s ++ t -> (forall e h d, ~ In (TInv e h d) t) -> disps t = [] ->
+            (forall x rem, In (FDisp x rem false) (stack s') -> In (FDisp x rem false) (stack s)) -> pinv s').
+  { intros t Et Nt Dt Sub. split.
+    - intros x rem I. rewrite Et, invs_app, (noinv_invs _ _ Nt), app_nil_r. eauto.
+    - intros x I M. rewrite Et, disps_app, Dt, app_nil_r in I.
+      rewrite Et, invs_app, (noinv_invs _ _ Nt), app_nil_r. auto. }
+  destruct (stack s) as [|[ctx [|[n p md| | | |fs] acts]| |x rem chk] k] eqn:Hstk; try discriminate.
+  - inversion H; subst; clear H.
+    apply Keep with (t := match ctx with Some (e, h) => [TRet e h] | None => [] end);
+      [reflexivity|destruct ctx as [[e h]|]; noinv_tac|destruct ctx as [[e h]|]; reflexivity|sub_tac].
+  - inversion H; subst; clear H.
+    apply Keep with (t := [TFire {| ikey := p; ictr := counter s; iname := n; imode := md |}]);
+      [reflexivity|noinv_tac|reflexivity|sub_tac].
+  - destruct (batch s =? 0); inversion H; subst; clear H.
+    + apply Keep with (t := [TFlushB; TSnap]); [reflexivity|noinv_tac|reflexivity|sub_tac].
+    + apply Keep with (t := [TFlushB]); [reflexivity|noinv_tac|reflexivity|sub_tac].
+  - destruct ctx as [[e h]|]; simpl in H; inversion H; subst; clear H.
+    + apply Keep with (t := [TStop e h]); [reflexivity|noinv_tac|reflexivity|sub_tac].
+    + apply Keep with (t := []); [reflexivity|noinv_tac|reflexivity|sub_tac].
+  - destruct ctx as [[e h]|]; simpl in H; inversion H; subst; clear H.
+    + apply Keep with (t := [TGen e h]); [reflexivity|noinv_tac|reflexivity|sub_tac].
+    + apply Keep with (t := []); [reflexivity|noinv_tac|reflexivity|sub_tac].
+  - destruct ctx as [[e h]|]; simpl in H; inversion H; subst; clear H.
+    + apply Keep with (t := [TRaise e h]); [reflexivity|noinv_tac|reflexivity|sub_tac].
+    + apply Keep with (t := []); [reflexivity|noinv_tac|reflexivity|sub_tac].
+  - destruct (batch s =? 0); [|destruct (pop_min (heap s)) as [[m h']|] eqn:Pm]; inversion H; subst; clear H.
+    + apply Keep with (t := [TFlushE]); [reflexivity|noinv_tac|reflexivity|sub_tac].
+    + (* dispatch m *)
+      assert (Nm : ~ In (ictr m) (ids (disps (trace s)))).
+      { destruct Q as [_ _ N _ _]. unfold ids in N. rewrite !map_app in N. apply NoDup_app_r in N.
+        eapply NoDup_app_disj; eauto. apply in_map.
+        eapply Permutation_in; [symmetry; apply (pop_min_perm _ _ _ Pm)|left; auto]. }
+      destruct (h_fresh _ Hi _ Nm) as (Fi&_&_).
+      split; simpl.
+      * intros x0 r0 [E|[E|I0]]; [inversion E; subst|discriminate|];
+          (rewrite invs_snoc_other; [|discriminate]); auto. apply (Pf x0 r0). right. auto.
+      * intros x0 I0 M. rewrite invs_snoc_other; [|discriminate].
+        rewrite disps_app in I0. apply in_app_iff in I0. destruct I0 as [I0|[<-|[]]]; auto.
+        rewrite Fi. simpl. lia.
+    + split; simpl; [intros x0 r0 []|auto].
+  - destruct (chk && (is_stopped (ictr x) (stopped s) || is_pre (imode x))) eqn:Cs; [|destruct rem as [|h rem']];
+      inversion H; subst; clear H.
+    + apply Keep with (t := [TDone (ictr x)]); [reflexivity|noinv_tac|reflexivity|sub_tac].
+    + apply Keep with (t := [TDone (ictr x)]); [reflexivity|noinv_tac|reflexivity|sub_tac].
+    + (* invoke h *)
+      destruct Hi as [Hf Hd _ _ _ _]. rewrite Hstk in *. simpl in Hf. inversion Hf as [|? ? Nx _]; subst.
+      destruct (Hd x (h :: rem') chk) as (Dx&_); [left; auto|].
+      split; simpl.
+      * intros x0 r0 [E|[E|I0]]; try discriminate.
+        rewrite invs_app. simpl. destruct (ictr x =? ictr x0) eqn:E.
+        -- apply Nat.eqb_eq in E. exfalso. apply Nx. rewrite E. eapply in_frame_ids; eauto.
+        -- rewrite app_nil_r. apply (Pf x0 r0). right. auto.
+      * intros x0 I0 M. rewrite disps_app in I0. simpl in I0. rewrite app_nil_r in I0.
+        rewrite invs_app. simpl. destruct (ictr x =? ictr x0) eqn:E.
+        -- apply Nat.eqb_eq in E.
+           assert (x0 = x).
+           { destruct Q as [_ _ N _ _]. unfold ids in N. rewrite !map_app in N. do 2 apply NoDup_app_r in N.
+             eapply ids_inj; eauto. }
+           subst x0. rewrite M in Cs. simpl in Cs. rewrite orb_true_r, andb_true_r in Cs. subst chk.
+           rewrite (Pf x (h :: rem')) by (left; auto). simpl. lia.
+        -- rewrite app_nil_r. auto.
+Qed.
+
+Theorem prestopped_at_most_one : forall prog s x, reach prog s -> In x (disps (trace s)) ->
+  imode x = MPreStop -> length (invs (ictr x) (trace s)) <= 1.
+Proof.
+  intros prog s x R. assert (P : pinv s).
+  { induction R; [split; simpl; [intros x0 r0 [E|[]]; discriminate|intros x0 []]|].
+    eapply pinv_step; eauto using qinv_reach, hinv_reach. }
+  destruct P as [_ P]. auto.
+Qed.
+
 (* fire() only appends to the FIFO: no handler runs, no frame is pushed, heap and batch are untouched *)
-Lemma fire_only_queues : forall (s : state) ctx n p acts k,
-  stack s = FBody ctx (AFire n p :: acts) :: k ->
+Lemma fire_only_queues : forall (s : state) ctx n p md acts k,
+  stack s = FBody ctx (AFire n p md :: acts) :: k ->
   exists s', step s = Some s' /\
-    let x := Build_item p (counter s) n in
+    let x := Build_item p (counter s) n md in
     fifo s' = fifo s ++ [x] /\ heap s' = heap s /\ batch s' = batch s /\ stopped s' = stopped s /\
     stack s' = FBody ctx acts :: k /\ trace s' = trace s ++ [TFire x].
 Proof.
-  intros s ctx n p acts k H. unfold DispatchOrder.step. rewrite H. eexists. split. reflexivity. simpl. repeat split.
+  intros s ctx n p md acts k H. unfold DispatchOrder.step. rewrite H. eexists. split. reflexivity. simpl. repeat split.
 Qed.
 
 End P.
